@@ -10,6 +10,16 @@ NOT_APPLICABLE = {
 for _p in ["C%02d" % i for i in range(1, 21)]:
     NOT_APPLICABLE.setdefault(_p, PENDING)
 CLAIMED = {
+    "C07": {
+        "text": "Decides structural necessary conditions of grid-like relocation for all edits: the extracted normal forms of the scalar insert/remove/band kernels and all sibling AdjustmentValue impls equal reference tables on every order type (finite, exhaustive); the range-removal predicate equals the per-axis reference for every API-reachable edit; type-driven fan-out coverage of every adjustment impl; retain-before-shift with the element's own band predicate; own-content moves guarded by sheet identity; axis slots not crossed; move/copy bounds dominate mutations. Does not decide equality with a reference grid after arbitrary histories.",
+        "note": NOTE,
+        "technique": "kernel normal-form extraction from MIR compared over order types; type-reachability fan-out coverage; dominator / control-dependence rules; operand-order dataflow",
+    },
+    "C08": {
+        "text": "Decides structural necessary conditions of reference preservation: shift not guarded by $ flags; per-axis scalar wiring and role agreement; one-sided Option checks; sheet-matching guard equals the reference truth table (16 rows); edited/own sheet names keep their slots along the whole call chain; every holder of sheet-qualified references is visited by the sheet-aware fan-out; existence of a #REF! path; tokenizer loop progress (termination). Does not decide that non-reference lexemes survive for all formulas.",
+        "note": NOTE,
+        "technique": "control-dependence and dataflow rules on MIR; boolean normal form from typed HIR vs reference truth table; type-driven fan-out coverage; loop-progress path rule",
+    },
     "C09": {
         "text": "Decides, for all formulas, four structural necessary conditions in the tokenizer and the translation kernel: loop progress of every counter loop, every lexer mode enterable, chars().nth(counter+k) dominated by an established bound (difference-bound dataflow), and the translation kernel's per-axis lock/offset/range-guard wiring plus the one-sided Option check. Does not decide render(parse(f)) = f.",
         "note": NOTE,
